@@ -263,6 +263,9 @@ Definition plain_advertised (c : config) : limits :=
 Definition client_idle (cfg_idle peer_idle : Z) : Z :=
   if 0 <? peer_idle then Z.min cfg_idle peer_idle else cfg_idle.
 
+(* Conn.nextIdleTimeoutTime - idleTimeoutStartTime: max(idleTimeout, 3*PTO) *)
+Definition idle_deadline (cfg_idle peer_idle pto3 : Z) : Z := Z.max (client_idle cfg_idle peer_idle) pto3.
+
 (** * The game: conformant peer vs. client *)
 
 Inductive kind := KConn | KSD0 | KSD1 | KSD2 | KSB | KSU | KCID.
@@ -353,7 +356,7 @@ Definition client_step (e : env) (s : state) (x : ev) : state * option Z :=
   | EvRetireCID =>
     (if 1 <? used (s KCID) then bump s KCID (-1) else s, None)
   | EvSilence d peer_idle pto3 =>
-    if Z.max (client_idle (l_idle (e_enf e)) peer_idle) pto3 <=? d then (s, Some IdleTimeout)  (* nextIdleTimeoutTime *)
+    if idle_deadline (l_idle (e_enf e)) peer_idle pto3 <=? d then (s, Some IdleTimeout)  (* run loop: !now.Before(nextIdleTimeoutTime()) *)
     else (s, None)
   end.
 
@@ -402,14 +405,53 @@ Fixpoint run (e : env) (s : state) (h : list ev) : outcome :=
 
 Definition play (adv enf : limits) (h : list ev) : outcome := run (mkEnv adv enf) (init (mkEnv adv enf)) h.
 
-(* replay of harness probes (not necessarily conformant): the error code of each event, up to the first error *)
+(* what the harness observes after an event that raised no error: for the client's own events
+   the counter they touch (the window now enforced after a grant, the number of stored
+   connection IDs after a retirement), 0 otherwise *)
+Definition obs_after (s' : state) (x : ev) : Z :=
+  match x with
+  | EvGrant k _ => rw (s' k)
+  | EvRetireCID => used (s' KCID)
+  | _ => 0
+  end.
+
+(* replay of harness probes (not necessarily conformant): per event the error code or [obs_after], up to the first error *)
 Fixpoint run_codes (e : env) (s : state) (h : list ev) : list Z :=
   match h with
   | [] => []
   | x :: t =>
     match client_step e s x with
-    | (s', None) => 0 :: run_codes e s' t
+    | (s', None) => obs_after s' x :: run_codes e s' t
     | (_, Some c) => [c]
+    end
+  end.
+
+(* a history in which every event is within the peer's credit and every grant of the client raises
+   the window it enforced so far (what flow control and the streams map guarantee for the updates
+   they send: FlowCtl C04_window_monotone / _conn, StreamsMap C15_incoming_limit_and_credit):
+   the final state, if no error occurred *)
+Definition grant_increasing (s : state) (x : ev) : bool :=
+  match x with EvGrant k w => rw (s k) <? w | _ => true end.
+
+Fixpoint run_st (e : env) (s : state) (h : list ev) : option state :=
+  match h with
+  | [] => Some s
+  | x :: t =>
+    if peer_ok e s x && grant_increasing s x then
+      match client_step e s x with
+      | (s', None) => run_st e s' t
+      | (_, Some _) => None
+      end
+    else None
+  end.
+
+Fixpoint last_grant (k : kind) (h : list ev) : option Z :=
+  match h with
+  | [] => None
+  | x :: t =>
+    match last_grant k t with
+    | Some w => Some w
+    | None => match x with EvGrant k' w => if kind_eqb k' k then Some w else None | _ => None end
     end
   end.
 
